@@ -107,14 +107,6 @@
         }
     }
 @raw
-// the row's value satisfies the comparison against 0 (this is what required_bounds encodes)
-pub open spec fn contains_req(c: Comparison, d: real) -> bool {
-    match c {
-        Comparison::LessOrEqual | Comparison::Less => d <= 0real,
-        Comparison::GreaterOrEqual | Comparison::Greater => d >= 0real,
-        Comparison::Equal => d == 0real,
-    }
-}
 pub proof fn lemma_mul_div_aff(c: real)
     requires c != 0real,
     ensures forall|x: real| #[trigger] rdiv_s(rmul_s(x, c), c) == x,
